@@ -204,6 +204,11 @@ func c08System(base string) *explore.System {
 			doc.Controller = &didtypes.JSONStringOrStrings{""} // a list holding one empty string is not the same value as an empty list
 			return &world.TxSpec{Msgs: []sdk.Msg{&didtypes.MsgUpdateDIDRequest{Did: d1, Document: doc, VerificationMethodId: k.vmID(d1, 1), Signature: k.sign(doc, seqOf(w, d1), 1), FromAddress: A.Bech}}, Signers: s(A), Fee: aolFee}
 		}},
+		explore.Op{Name: "UpdateDID(d1,D1+dangling-assertion-reference)", Tx: func(w *world.World, m any) *world.TxSpec {
+			doc := k.doc("D1", d1) // a document the chain must refuse: were it stored, the exported genesis would not validate
+			doc.AssertionMethods = []didtypes.VerificationRelationship{didtypes.NewVerificationRelationship(k.vmID(d1, 2))}
+			return &world.TxSpec{Msgs: []sdk.Msg{&didtypes.MsgUpdateDIDRequest{Did: d1, Document: doc, VerificationMethodId: k.vmID(d1, 1), Signature: k.sign(doc, seqOf(w, d1), 1), FromAddress: A.Bech}}, Signers: s(A), Fee: aolFee}
+		}},
 		explore.Op{Name: "DeactivateDID(d1,k1)", Tx: func(w *world.World, m any) *world.TxSpec {
 			return &world.TxSpec{Msgs: []sdk.Msg{&didtypes.MsgDeactivateDIDRequest{Did: d1, VerificationMethodId: k.vmID(d1, 1), Signature: k.sign(&didtypes.DIDDocument{Id: d1}, seqOf(w, d1), 1), FromAddress: A.Bech}}, Signers: s(A), Fee: aolFee}
 		}},
